@@ -121,7 +121,7 @@ def argv_of(w):
         return ["measure", hexs([b for b in (w.get("resp") or []) if b][:1009])]
     d = list(w.get("dgram") or [])
     n = w.get("n", len(d))
-    n = max(min(n if isinstance(n, int) else len(d), 1023), 0)
+    n = max(min(n if isinstance(n, int) else len(d), 2000), 0)      # harness buffer: 4096 octets
     d = (d + [0x20] * n)[:n]
     if func == "trx_data_rx_cb" and "dgram" not in w:
         d = [0] * 160
